@@ -61,6 +61,20 @@ let pr_message m =
   pr_str m.m_context.cx_text; pr_nat m.m_context.cx_offset;
   pr_nat m.m_context.cx_length
 
+let rec rd_json r : json =
+  match next_int r with
+  | 0 -> JNull
+  | 1 -> JBool (rd_bool r)
+  | 2 -> JInt (z_of_int (next_int r))
+  | 3 -> JFloat
+  | 4 -> JStr (rd_str r)
+  | 5 -> JArr (rd_list r rd_json)
+  | 6 -> JObj (rd_list r (fun r -> let k = rd_str r in let v = rd_json r in (k, v)))
+  | _ -> raise Not_found
+let rd_mode r = match next_int r with
+  | 0 -> MPlain | 1 -> MJson | 2 -> MXml | 3 -> MXmlB | 4 -> MHtml | _ -> MServer
+let pz z = pi (int_of_z z)
+
 let dispatch op r =
   match op with
   | "replace_phrases" ->
@@ -77,6 +91,21 @@ let dispatch op r =
   | "equation" ->
       let plain = rd_str r in let pls = rd_list r rd_str in
       pr_list pr_message (m_equation_messages plain pls)
+  | "report" ->
+      let md = rd_mode r in let link = rd_bool r in let tex = rd_str r in
+      let parts = rd_list r (fun r ->
+          let plain = rd_str r in let cm = rd_zlist r in
+          let has = rd_bool r in
+          let ans = if has then Some (rd_json r) else None in
+          { rp_plain = plain; rp_map = cm; rp_answer = ans }) in
+      pr_result (fun ls -> pr_list (fun l ->
+          pr_nat l.l_id; pz l.l_offset; pz l.l_length;
+          pz l.l_a; pz l.l_b; pz l.l_c; pz l.l_d) ls)
+        (m_run_report md link tex parts)
+  | "map_match" ->
+      let o = z_of_int (next_int r) in let l = z_of_int (next_int r) in
+      let tex = rd_str r in let cm = rd_zlist r in
+      pr_result (fun (a, b) -> pz a; pz b) (m_map_match_position o l tex cm)
   | _ -> raise Not_found
 
 let () =
